@@ -860,6 +860,63 @@ def pairs_text(repo):
             "def eqHashPairs : List (String × Bool × Bool) :=\n  [" + ",\n   ".join(rows) + "]\n")
 
 
+def _classdef(repo, file, cls):
+    for n in tree_of(repo, file).body:
+        if isinstance(n, ast.ClassDef) and n.name == cls:
+            return n
+    return None
+
+
+def _find_property(repo, file, cls, a, depth=0):
+    cd = _classdef(repo, file, cls)
+    if cd is None or depth > 4:
+        return None
+    for m in cd.body:
+        if isinstance(m, ast.FunctionDef) and m.name == a and any(dotted(d) == "property" for d in m.decorator_list):
+            return m
+    for b in cd.bases:
+        r = _find_property(repo, file, dotted(b), a, depth + 1)
+        if r is not None:
+            return r
+    return None
+
+
+def _method_chain(repo, file, cls, func, depth=0):
+    """the statements of cls.func and of the Base.func(self, ...) it calls"""
+    body = list(method_body(repo, file, cls, func))
+    out = list(body)
+    for n in ast.walk(ast.Module(body=body, type_ignores=[])):
+        if isinstance(n, ast.Call) and isinstance(n.func, ast.Attribute) and n.func.attr == func and isinstance(n.func.value, ast.Name) \
+                and n.func.value.id not in ("self", "other") and depth < 3 and _classdef(repo, file, n.func.value.id) is not None:
+            out.extend(_method_chain(repo, file, n.func.value.id, func, depth + 1))
+    return out
+
+
+def getters_text(repo):
+    """attributes that `__eq__` / `__hash__` read under BOTH names (`self._a` and `other.a` / `self.a`): does the property `a`
+    return the field `_a` (as it is, or a copy of it)?"""
+    rows = []
+    for fam, file, cls in FAMILIES:
+        private, public = set(), set()
+        for fn in ("__eq__", "__hash__"):
+            for n in ast.walk(ast.Module(body=_method_chain(repo, file, cls, fn), type_ignores=[])):
+                if isinstance(n, ast.Attribute) and isinstance(n.value, ast.Name) and n.value.id in ("self", "other") \
+                        and not n.attr.startswith("__"):
+                    (private if n.attr.startswith("_") else public).add(n.attr.lstrip("_"))
+        for a in sorted(private & public):
+            m = _find_property(repo, file, cls, a)
+            ok = False
+            if m is not None:
+                body = [x for x in m.body if not (isinstance(x, ast.Expr) and isinstance(x.value, ast.Constant))]
+                if len(body) == 1 and isinstance(body[0], ast.Return) and body[0].value is not None:
+                    ok = ast.unparse(body[0].value) in (f"self._{a}", f"self._{a}.copy()", f"copy.copy(self._{a})",
+                                                        f"copy.deepcopy(self._{a})", f"deepcopy(self._{a})")
+            rows.append(f"({lstr(fam)}, {lstr(a)}, {'true' if ok else 'false'})")
+    return ("/-- attributes read under both names (`self._a` on one side, the getter `a` on the other, or field in one method and getter in\n"
+            "    the other): (class family, attribute, the property `a` returns the field `_a`) -/\n"
+            "def mixedAccessGetters : List (String × String × Bool) :=\n  [" + ",\n   ".join(rows) + "]\n")
+
+
 HEADER = """/-
   Gen.SrcC12 — GENERATED on every run by harness/translate/src_c12.py from the current source of /repo. Do not edit.
 -/
@@ -887,6 +944,7 @@ def items(repo):
     out.append(("SignalState", lambda: signal_text(repo)))
     out.append(("stateSubclasses", lambda: dataclass_text(repo)))
     out.append(("eqHashPairs", lambda: pairs_text(repo)))
+    out.append(("getters", lambda: getters_text(repo)))
     return out
 
 
